@@ -21,16 +21,16 @@ PROPS = {
         "assumptions": COMMON_ASSUME,
     },
     "C10": {
-        "claim": 'Order-insensitivity (deep member permutations), parse-back by a strict JSON reader, injectivity, sortedness, exact integers and rejection of non-integers are Lean theorems over all JSON values (nested-inductive induction, no size bound); model tied to Json::canonicalize by a differential run and oracles (parse-back with serde_json, re-spelled documents).',
-        "level_note": 'Trusted: Lean kernel; hand-written model of convert/write; serde_json escaping and number classification as library facts (validated differentially); serde_json text reader only sampled.',
+        "claim": 'Order-insensitivity (deep member permutations), insensitivity to whitespace and escape spelling of the source text (every spelling of a value is read as that value by the model of the serde_json text reader, Model/JsonText.lean), parse-back by a strict JSON reader, injectivity, sortedness, exact integers and rejection of non-integers are Lean theorems over all JSON values (nested-inductive induction, no size bound); model tied to Json::canonicalize by a differential run and oracles (parse-back with serde_json, re-spelled documents).',
+        "level_note": 'Trusted: Lean kernel; hand-written model of convert/write; serde_json escaping, number classification and text grammar as library facts (validated differentially).',
         "technique": 'Lean 4 theorems about an executable model + model/implementation correspondence check (differential run with property oracle)',
         "rule": "ops = canon(value) for generated serde_json values (model is shown a shuffled member order half of the time) and "
                 "parsej(canonical text) read by the model's strict JSON reader; distinct = distinct op line; non-trivial = value "
                 "is not a bare null/bool",
         "exhaustive_note": "thorough tier: every Unicode scalar value appears in a canonicalized string (blocks of 64)",
         "trusted_base": JSON_TB,
-        "partial": ["'whitespace or escape spelling of the source text' is serde_json's reader: covered only by the oracle "
-                    "(re-spelled documents must canonicalize to the same bytes), not by a theorem"],
+        "partial": ["serde_json's text reader is modelled, not verified: the spelling theorems are about Model/JsonText.lean, tied to "
+                    "serde_json::from_str by the readtext differential (spelled, edited, numeral and deeply nested texts)"],
         "assumptions": COMMON_ASSUME,
     },
     "C11": {
@@ -240,13 +240,13 @@ PROPS = {
         "assumptions": COMMON_ASSUME + ["expiry at whole seconds, as the statement prescribes (enforced by LayoutMetadata::new since fix 04de89f)"],
     },
     "C17": {
-        "claim": "The table of string requests made by the crate's hand-written decoders is regenerated from the source on every run; Lean proves that it contains no borrowed request and that a decoder making only owned requests is independent of channel and escape spelling; every document type is decoded on the real code through seven entry points and four spellings, which must agree.",
-        "level_note": "Trusted: Lean kernel; the translator's regular expressions (fail closed: unclassifiable string-like requests are rejected by the theorem); serde / serde_json and the derived decoders are library code covered only by the oracle.",
+        "claim": "The table of string requests made by the crate's hand-written decoders is regenerated from the source on every run; Lean proves that it contains no borrowed request and that a decoder making only owned requests is independent of channel and escape spelling; serde_json's text reader is modelled (Model/JsonText.lean: lexer + token parser with the recursion limit, surrogate pairs, number classification) and Lean proves that every spelling of a value - white space anywhere between tokens, every string character raw, by its two-character escape, as \\uXXXX in either hex case or as a surrogate pair - is read as that value (no bound on size; nesting below the recursion limit); every document type is decoded on the real code through seven entry points and several spellings, valid and near-valid, which must agree.",
+        "level_note": "Trusted: Lean kernel; the translator's regular expressions (fail closed: unclassifiable string-like requests are rejected by the theorem); the hand-written model of serde_json's text reader (tied to serde_json::from_str by the readtext differential on spelled, edited, numeral and deeply nested texts); serde's derive machinery is library code covered by the oracle.",
         "technique": "Lean 4 theorem over a table translated from the Rust source on every run + four-channel decoding oracle on the implementation",
         "translate": "strreq.py",
         "rule": "cases = generated layouts, links, signed blocks, keys, signatures, rules, steps, statements and predicates (plus perturbed / malformed ones) decoded via from_str, from_slice, from_reader, from_value, Json::from_slice, Json::from_reader, Json::deserialize in compact, pretty and two re-spelled (escapes, whitespace, shuffled members) texts; distinct = distinct document type op; non-trivial = the document is accepted",
-        "trusted_base": ["serde / serde_json channel behaviour as described in Model/Channel.lean (library behaviour)", "translate/strreq.py scanning rules"],
-        "partial": ["serde internals and derived decoders are not modelled: the unbounded claim is about hand-written string requests; the rest is the oracle"],
+        "trusted_base": ["serde / serde_json channel behaviour as described in Model/Channel.lean (library behaviour)", "translate/strreq.py scanning rules", "serde_json 1.0 text grammar as encoded in Model/JsonText.lean (readtext differential)"],
+        "partial": ["serde's derive machinery (visitor dispatch, Content buffering of untagged enums) is not modelled: the unbounded claims are about hand-written string requests and about the text reader; channel agreement of the derived decoders is the oracle", "floats in the decimal window 1e308 <= |x| < 1e309 (verdict depends on serde_json's float conversion) are outside the text-reader model"],
         "assumptions": COMMON_ASSUME,
     },
     "C18": {
